@@ -8,7 +8,7 @@
    s1 (C04_generations_fixpoint); also for trees with placeholder groups, i.e. objects loaded from files with sparse group
    ids (C04_second_generation_sparse_ids).  Outside those hypotheses (non-zero reserved header words, content outside wf_param) the property is decided by the C04 check on the spec-encoded corpus and the vendor files. *)
 From Coq Require Import Lia ZifyNat ZifyN ZifyBool.
-From EZ Require Import Base Bytes Types Api Enc Dec Float32 Run Proofs_Bytes Proofs_Lookup Proofs_Param Proofs_Codec Proofs_Section Proofs_Record Proofs_Chain Proofs_ChainW Proofs_HeaderCodec Proofs_RoundTrip Proofs_Decide Run_Decide.
+From EZ Require Import Base Bytes Types Api Enc Dec Float32 Run Proofs_Bytes Proofs_Lookup Proofs_Param Proofs_Codec Proofs_Section Proofs_Record Proofs_Chain Proofs_ChainW Proofs_HeaderCodec Proofs_RoundTrip Proofs_Decide Run_Decide Proofs_PointsOnly.
 Local Open Scope N_scope.
 
 (* once a generation reloads to a state that saves to the same bytes, every later generation is byte-identical *)
@@ -187,3 +187,8 @@ Theorem C04_decided : forall s, ls4_ok_x s = true ->
   exists bytes s1, save_x s = Ok bytes /\ load_x bytes = Ok s1 /\ save_x s1 = Ok bytes.
 Proof. intros s H. exact (ls4_ok_second_generation f_key_impl f_tosize_impl f_div_impl s H). Qed.
 Print Assumptions C04_decided.
+
+Theorem C04_decided_points_only : forall s, ls4n_ok_x s = true ->
+  exists bytes s1, save_x s = Ok bytes /\ load_x bytes = Ok s1 /\ save_x s1 = Ok bytes.
+Proof. intros s H. exact (ls4n_ok_second_generation f_key_impl f_tosize_impl f_div_impl s H). Qed.
+Print Assumptions C04_decided_points_only.
